@@ -222,4 +222,11 @@ theorem toDisp_generated_spec (x : Input) (cv : Nat) (c0 : Store (List Fl)) (m0 
   rw [(toDisp_generated x cv c0 m0 hcv).2.1]
   exact C03.source_blocks_spec x lo hi hwf r c hr hc
 
+/-- how the fields the model does not hold are handed to the result, as read in the source on this run: the validity
+    mask is a DEEP copy (later steps write flags into the disparity dataset's mask; the cost volume's must not follow),
+    the confidence bands are the cost volume's own -/
+theorem carried_fields :
+    Generated.KernelsWta.carried.lookup "validity_mask" = some "deepcopy"
+    ∧ Generated.KernelsWta.carried.lookup "confidence_measure" = some "alias" := by decide
+
 end Pandora.C03Kernels
